@@ -1,5 +1,5 @@
 ----------------------------- MODULE TraceOrigin -----------------------------
-(* C17: synthetic siginfo records (poisoned pid/uid bytes) and real deliveries with ground truth. *)
+(* C17: synthetic siginfo records (chosen pid/uid bytes) and real deliveries with ground truth. *)
 EXTENDS OriginOps, Sequences, TLC, Json, IOUtils
 
 Rec == ndJsonDeserialize(IOEnv.TRACE)
@@ -10,8 +10,8 @@ Flg(c, s) == IF c THEN {s} ELSE {}
 
 TInit == l = 1 /\ viol = {}
 
-PoisonPid == 305419896   \* 0x12345678 written where si_pid lives
-PoisonUid == 195939070   \* 0x0BADCAFE written where si_uid lives
+\* R.x = <<pid, uid>> written where si_pid / si_uid live: poison patterns and the legitimate corner
+\* values 0 (a sender outside the receiver's pid namespace; root), 1, INT_MAX.
 
 TSyn ==
     /\ l <= Len(Rec) /\ R.e = "origin_syn" /\ l' = l + 1
@@ -19,7 +19,7 @@ TSyn ==
          \cup Flg(R.rsig # R.signo, "wrong_signal_number")
          \cup Flg(R.cause # Cause(R.signo, R.code), "wrong_cause_class")
          \cup Flg(R.has # HasProcess(R.signo, R.code), "process_presence_wrong")
-         \cup Flg(R.has /\ (R.pid # PoisonPid \/ R.uid # PoisonUid), "pid_uid_read_from_wrong_place")
+         \cup Flg(R.has /\ (R.pid # R.x[1] \/ R.uid # R.x[2]), "pid_uid_read_from_wrong_place")
 
 TReal ==
     /\ l <= Len(Rec) /\ R.e = "origin_real" /\ l' = l + 1
